@@ -106,7 +106,9 @@ class VirtualLoop(base_events.BaseEventLoop):
         pass
 
     async def getaddrinfo(self, host, port, *, family=0, type=0, proto=0, flags=0):
-        # synchronous numeric resolution: no executor thread in the model
+        # numeric resolution without an executor thread; like the real one it completes in
+        # a later loop iteration (the caller is suspended once)
+        await asyncio.sleep(0)
         return socket.getaddrinfo(host, port, family, type, proto, flags | socket.AI_NUMERICHOST)
 
     def _run_once(self):
